@@ -10,8 +10,10 @@ man = json.load(open(os.path.join(ROOT, "MANIFEST.json")))
 ids = [json.loads(l)["id"] for l in open(os.path.join(ROOT, "properties.jsonl"))]
 checks = []
 na = []
+# only properties whose check the coordinator has seen pass on the unchanged tree are claimed
+READY = set(open(os.path.join(ROOT, "tools", "ready.txt")).read().split())
 for pid in ids:
-    if pid in PROPS and pid in CLAIMS:
+    if pid in PROPS and pid in CLAIMS and pid in READY:
         c = CLAIMS[pid]
         checks.append(dict(
             property_id=pid,
@@ -25,7 +27,7 @@ for pid in ids:
             technique=c["technique"],
         ))
     else:
-        na.append(dict(property_id=pid, reason=NOT_APPLICABLE.get(pid, "check not built yet in this session (no claim made); see DESIGN.md section 5 for the planned model and theorems")))
+        na.append(dict(property_id=pid, reason=NOT_APPLICABLE.get(pid, "check still under construction (no claim made yet); see DESIGN.md section 5 for the planned model and theorems" if pid not in PROPS else "check built but not yet validated end-to-end by the coordinator (no claim made yet); see notes/" + pid + ".md")))
 man["checks"] = checks
 man["not_applicable"] = na
 man["engines"][0]["serves_properties"] = [c["property_id"] for c in checks]
